@@ -19,3 +19,108 @@ package ast
 //@ fields_copied (*Vars).DeepCopy                 [C08]
 //@   skipfield mutex a copy gets its own, unlocked mutex
 //@ fields_copied (*Matrix).DeepCopy               [C08]
+
+// ---- C16: no YAML document makes a decoder panic (zero-annotation safety sweep) -------------------
+// "sweep" generates index, slice-bounds, nil-dereference, type-assertion, division and explicit-panic
+// obligations from the SSA of the function; the only annotations are loop invariants.
+
+//@ func (*Cmd).UnmarshalYAML
+//@   sweep                                                         [C16]
+//@ func (*Defer).UnmarshalYAML
+//@   sweep                                                         [C16]
+//@ func (*Dep).UnmarshalYAML
+//@   sweep                                                         [C16]
+//@ func (*For).UnmarshalYAML
+//@   sweep                                                         [C16]
+//@ func (*Glob).UnmarshalYAML
+//@   sweep                                                         [C16]
+//@ func (*Includes).UnmarshalYAML
+//@   sweep                                                         [C16]
+//@   loop 1 invariant 0 <= i && i % 2 == 0                         [C16]
+//@ func (*Include).UnmarshalYAML
+//@   sweep                                                         [C16]
+//@ func (*Matrix).UnmarshalYAML
+//@   sweep                                                         [C16]
+//@   loop 1 invariant 0 <= i && i % 2 == 0                         [C16]
+//@ func (*Output).UnmarshalYAML
+//@   sweep                                                         [C16]
+//@ func (*Platform).UnmarshalYAML
+//@   sweep                                                         [C16]
+//@ func (*Precondition).UnmarshalYAML
+//@   sweep                                                         [C16]
+//@ func (*Prompt).UnmarshalYAML
+//@   sweep                                                         [C16]
+//@ func (*VarsWithValidation).UnmarshalYAML
+//@   sweep                                                         [C16]
+//@ func (*Task).UnmarshalYAML
+//@   sweep                                                         [C16]
+//@ func (*Taskfile).UnmarshalYAML
+//@   sweep                                                         [C16]
+//@ func (*Tasks).UnmarshalYAML
+//@   sweep                                                         [C16]
+//@   loop 1 invariant 0 <= i && i % 2 == 0                         [C16]
+//@ func (*Var).UnmarshalYAML
+//@   sweep                                                         [C16]
+//@ func (*Vars).UnmarshalYAML
+//@   sweep                                                         [C16]
+//@   loop 1 invariant 0 <= i && i % 2 == 0                         [C16]
+//@ func (*Platform).parsePlatform
+//@   sweep                                                         [C16]
+
+// ---- ordered-map wrappers: abstract view through the ghost tables om_has/om_val/om_len/om_key ------
+// (declared in /verif/contracts/deps/orderedmap.gvc). The updates are sequential: each is evaluated in the
+// state left by the previous one, so om_len/om_has still have their old value where they are read.
+
+//@ func (*Tasks).Set
+//@   modifies tasks.om
+//@   ensures old(tasks.om) != nil ==> tasks.om == old(tasks.om)
+//@   ensures tasks.om != nil
+//@   updates om_val(tasks.om, key) := value
+//@   updates om_key(tasks.om, om_len(tasks.om)) := key if !om_has(tasks.om, key)
+//@   updates om_len(tasks.om) := om_len(tasks.om) + 1 if !om_has(tasks.om, key)
+//@   updates om_has(tasks.om, key) := true                                        [C16,C08]
+
+//@ func (*Vars).Set
+//@   modifies vars.om
+//@   ensures old(vars.om) != nil ==> vars.om == old(vars.om)
+//@   ensures vars.om != nil
+//@   updates om_val(vars.om, key) := value
+//@   updates om_key(vars.om, om_len(vars.om)) := key if !om_has(vars.om, key)
+//@   updates om_len(vars.om) := om_len(vars.om) + 1 if !om_has(vars.om, key)
+//@   updates om_has(vars.om, key) := true                                         [C16,C10]
+
+//@ func (*Includes).Set
+//@   modifies includes.om
+//@   ensures old(includes.om) != nil ==> includes.om == old(includes.om)
+//@   ensures includes.om != nil
+//@   updates om_val(includes.om, key) := value
+//@   updates om_key(includes.om, om_len(includes.om)) := key if !om_has(includes.om, key)
+//@   updates om_len(includes.om) := om_len(includes.om) + 1 if !om_has(includes.om, key)
+//@   updates om_has(includes.om, key) := true                                     [C16]
+
+//@ func (*Matrix).Set
+//@   modifies matrix.om
+//@   ensures old(matrix.om) != nil ==> matrix.om == old(matrix.om)
+//@   ensures matrix.om != nil
+//@   updates om_val(matrix.om, key) := value
+//@   updates om_key(matrix.om, om_len(matrix.om)) := key if !om_has(matrix.om, key)
+//@   updates om_len(matrix.om) := om_len(matrix.om) + 1 if !om_has(matrix.om, key)
+//@   updates om_has(matrix.om, key) := true                                       [C16]
+
+// Constructors (trusted: they allocate, create the inner ordered map and insert the given elements).
+//@ func NewTasks
+//@   trusted
+//@   pure allocates
+//@   ensures fresh(result) && result.om != nil
+//@ func NewVars
+//@   trusted
+//@   pure allocates
+//@   ensures fresh(result) && result.om != nil
+//@ func NewIncludes
+//@   trusted
+//@   pure allocates
+//@   ensures fresh(result) && result.om != nil
+//@ func NewMatrix
+//@   trusted
+//@   pure allocates
+//@   ensures fresh(result) && result.om != nil
